@@ -3540,16 +3540,25 @@ impl LineBuf {
 							let first_non_ws = self.eval_motion(None, MotionCmd(1,Motion::FirstGraphicalOnScreenLine));
 							self.move_cursor(first_non_ws);
 						} else {
+							// On an empty line (or in an empty buffer) there is no character to put the text after
+							let on_terminator = self.grapheme_at_cursor().is_none_or(|gr| gr == "\n");
 							let insert_idx = match anchor {
-								Anchor::After => self.cursor.ret_add(1),
-								Anchor::Before => self.cursor.get()
+								Anchor::After if !on_terminator => self.cursor.get() + 1,
+								_ => self.cursor.get()
 							};
-							let len = content.len();
+							let (len,multi_line) = match &content {
+								RegisterContent::Span(text) => (text.graphemes(true).count(),text.contains('\n')),
+								_ => (content.len(),false)
+							};
+							if len == 0 {
+								return Ok(())
+							}
 							self.insert_register_content(insert_idx, content, anchor);
-							if register.is_block() {
+							if register.is_block() || multi_line {
 								self.cursor.set(insert_idx);
 							} else {
-								self.cursor.add(len.saturating_sub(1));
+								// The cursor ends on the last character that was put
+								self.cursor.set(insert_idx + len.saturating_sub(1));
 							}
 						}
 					}
